@@ -53,10 +53,11 @@ def check_distributed(n, W, R, drop_last, seed, epoch):
     return None
 
 
-def check_weighted(n, W, size, seed, epoch):
+def check_weighted(n, W, size, seed, epoch, zeros=0):
     from kappadata.samplers.weighted_sampler import WeightedSampler
     ds = range(n)
     weights = torch.arange(1, n + 1).float()
+    weights[:zeros] = 0.
     streams = []
     for r in range(W):
         s = WeightedSampler(ds, weights, size=size, seed=seed, rank=r, world_size=W)
@@ -64,6 +65,8 @@ def check_weighted(n, W, size, seed, epoch):
         lst = list(s)
         if len(lst) != len(s):
             return {"what": "rank stream length != len(sampler)", "rank": r, "len": len(lst), "expected": len(s)}
+        if lst != list(s):
+            return {"what": "equal (seed, epoch) does not reproduce the stream", "rank": r}
         if len(set(lst)) != len(lst):
             return {"what": "weighted sampler repeats an index within an epoch", "rank": r, "stream": lst}
         if any(not 0 <= i < n for i in lst):
@@ -72,6 +75,8 @@ def check_weighted(n, W, size, seed, epoch):
     L = len(streams[0])
     inter = [streams[t % W][t // W] for t in range(W * L)]
     EL = n if size is None else size
+    if zeros and EL > n - zeros:
+        return None      # torch.multinomial itself rejects more draws than non-zero weights without replacement
     g = torch.multinomial(weights, EL, replacement=False, generator=torch.Generator().manual_seed(seed + epoch)).tolist()
     if inter != g[:W * L]:
         return {"what": "rank streams are not the strided slices of one global draw", "observed": inter, "expected": g[:W * L]}
@@ -90,9 +95,13 @@ def check_class_balanced(labels, n_classes, spc, W, shuffle, seed, epoch):
         except AssertionError:
             return None
         s.set_epoch(epoch)
+        if r == 0:
+            list(s)         # a rank that already iterated once in this epoch must still see the same draw
         lst = list(s)
         if len(lst) != len(s):
             return {"what": "rank stream length != len(sampler)", "rank": r}
+        if lst != list(s):
+            return {"what": "equal (seed, epoch) does not reproduce the stream", "rank": r}
         if any(not 0 <= i < len(labels) for i in lst):
             return {"what": "invalid index", "stream": lst}
         streams.append(lst)
@@ -103,6 +112,10 @@ def check_class_balanced(labels, n_classes, spc, W, shuffle, seed, epoch):
     per = s.samples_per_class
     if eff != k * per:
         return {"what": "effective_length != classes * samples_per_class"}
+    if shuffle and spc is not None and len(labels) > 1:
+        s.set_epoch(epoch + 1)
+        other = list(s)
+        s.set_epoch(epoch)
     if W * L == eff:
         cnt = Counter(labels[i] for i in inter)
         if any(cnt[c] != per for c in range(k)):
@@ -162,6 +175,8 @@ def cases_c12(limit, rng):
         if size is not None and size > n:
             continue
         cs.append(("weighted", dict(n=n, W=W, size=size, seed=seed, epoch=ep)))
+        if n >= 4:
+            cs.append(("weighted", dict(n=n, W=W, size=size, seed=seed, epoch=ep, zeros=2)))
     for labels in ([0, 1], [0, 0, 1], [0, 1, 1, 1, 0], [0, 1, 2, 2, 1, 0, 0], [1, 0, 0, 0, 0, 0]):
         for spc, W, sh, seed in itertools.product((None, 1, 3, 5), (1, 2, 3), (True, False), (0, 1)):
             cs.append(("class_balanced", dict(labels=labels, n_classes=max(labels) + 1, spc=spc, W=W, shuffle=sh, seed=seed, epoch=seed)))
